@@ -160,7 +160,9 @@ def errform(rng, kw, form, err, wrong, feature):
     if form == "error-re":
         feature.append("regex")
         one = " ".join(err.split())
-        pat = rng.choice([rx_escape(one), rx_escape(one[:3]), "b.+m", "^" + rx_escape(one) + "$", "(?i)BOOM", "[0-9]+", "\\(1,2\\)"])
+        pat = rng.choice([rx_escape(one), rx_escape(one[:3]), "b.+m", "^" + rx_escape(one) + "$", "(?i)BOOM", "[0-9]+", "\\(1,2\\)",
+                          # regex semantics across line breaks of a multi-line error text: `.` does not match LF, ^/$ anchor the whole text only
+                          "line1.line2", "line1.*line2", "x.+y", "^line2", "line1$", "(?s)line1.line2", "(?m)^line2$", "line1\\nline2", "x\\s+y"])
         if wrong:
             pat = rx_escape(one) + "zz"
         if not pat.strip():
